@@ -61,8 +61,22 @@ impl Table {
 
     pub fn snapshot(&self, column_filter: Option<&[String]>) -> Vec<Arc<Partition>> {
         let frozen_buffer = self.frozen_buffer.lock().unwrap();
+        #[cfg(locustdb_verif)]
+        crate::verif::sync("snapshot:after-frozen-lock");
         let partitions = self.partitions.read().unwrap();
+        #[cfg(locustdb_verif)]
+        crate::verif::sync("snapshot:after-partitions-lock");
         let buffer = self.buffer.lock().unwrap();
+        #[cfg(locustdb_verif)]
+        {
+            crate::verif::event("Snapshot", || {
+                let mut parts: Vec<(usize, u64, usize)> = partitions.values().map(|p| (p.range().start, p.id, p.len())).collect();
+                parts.sort();
+                serde_json::json!({"table": self.name, "parts": parts.iter().map(|(o, id, l)| serde_json::json!({"id": id, "offset": o, "len": l})).collect::<Vec<_>>(),
+                    "frozen_len": frozen_buffer.len(), "buffer_len": buffer.len()})
+            });
+            crate::verif::sync("snapshot:all-locked");
+        }
         let mut partitions: Vec<_> = partitions.values().cloned().collect();
         let mut offset = partitions.iter().map(|p| p.len()).sum::<usize>();
         if frozen_buffer.len() > 0 {
@@ -123,6 +137,8 @@ impl Table {
         let mut buffer = self.buffer.lock().unwrap();
         assert!(frozen_buffer.len() == 0, "Frozen buffer is not empty");
         std::mem::swap(&mut *buffer, &mut *frozen_buffer);
+        #[cfg(locustdb_verif)]
+        crate::verif::event("Freeze", || serde_json::json!({"table": self.name, "frozen_len": frozen_buffer.len()}));
     }
 
     pub fn restore_tables_from_disk(storage: &Storage, lru: &Lru) -> HashMap<String, Arc<Table>> {
@@ -191,7 +207,11 @@ impl Table {
                 column_names.insert(col.clone());
             }
         }
+        #[cfg(locustdb_verif)]
+        let verif_len_before = buffer.len();
         buffer.push_typed_cols(columns);
+        #[cfg(locustdb_verif)]
+        crate::verif::event("ApplyTable", || serde_json::json!({"table": self.name, "rows": buffer.len() - verif_len_before, "buffer_len": buffer.len()}));
     }
 
     pub fn ingest_heterogeneous(&self, columns: HashMap<String, Vec<RawVal>>) {
@@ -234,6 +254,8 @@ impl Table {
             let mut partitions = self.partitions.write().unwrap();
             arc_partition = Arc::new(new_partition);
             partitions.insert(part_id, arc_partition.clone());
+            #[cfg(locustdb_verif)]
+            crate::verif::event("Batch", || serde_json::json!({"table": self.name, "pid": part_id, "offset": partition_offset, "len": arc_partition.len()}));
         }
         for (id, column) in keys {
             self.lru.put(ColumnLocator::new(self.name(), id, &column));
@@ -290,6 +312,8 @@ impl Table {
             for old_id in old_partitions {
                 partitions.remove(old_id);
             }
+            #[cfg(locustdb_verif)]
+            crate::verif::event("CompactSwap", || serde_json::json!({"table": self.name, "cid": id, "offset": offset, "len": partition.len(), "old": old_partitions}));
             partitions.insert(id, Arc::new(partition));
         }
         for (id, column) in keys {
@@ -362,6 +386,31 @@ impl Table {
             .iter()
             .map(|(name, size)| (name.to_string(), *size))
             .collect()
+    }
+
+    #[cfg(locustdb_verif)]
+    pub fn verif_state(&self) -> serde_json::Value {
+        let frozen_buffer = self.frozen_buffer.lock().unwrap();
+        let partitions = self.partitions.read().unwrap();
+        let buffer = self.buffer.lock().unwrap();
+        let mut parts: Vec<(usize, u64, usize, usize)> = partitions
+            .values()
+            .map(|p| (p.range().start, p.id, p.len(), p.col_handle_count()))
+            .collect();
+        parts.sort();
+        let mut names: Option<Vec<String>> = self.column_names.read().unwrap().as_ref().map(|s| s.iter().cloned().collect());
+        if let Some(n) = names.as_mut() {
+            n.sort();
+        }
+        serde_json::json!({
+            "name": self.name,
+            "parts": parts.iter().map(|(o, id, l, h)| serde_json::json!({"id": id, "offset": o, "len": l, "handles": h})).collect::<Vec<_>>(),
+            "frozen_len": frozen_buffer.len(),
+            "buffer_len": buffer.len(),
+            "column_names": names,
+            "next_pid": self.next_partition_id.load(std::sync::atomic::Ordering::SeqCst),
+            "next_offset": self.next_partition_offset.load(std::sync::atomic::Ordering::SeqCst),
+        })
     }
 
     pub fn next_partition_id(&self) -> u64 {
